@@ -1099,6 +1099,22 @@ impl<'r, 'a, 'ast> Visit<'ast> for V<'r, 'a> {
                     self.replace(e.span(), t);
                 }
             }
+            Expr::Match(m) => {
+                // an arm whose body is a bare expression gets braces (same meaning): gives a hook for proof text on that path
+                self.visit_expr(&m.expr);
+                for arm in &m.arms {
+                    if let Some((_, g)) = &arm.guard {
+                        self.visit_expr(g);
+                    }
+                    if matches!(&*arm.body, Expr::Block(_)) {
+                        self.visit_expr(&arm.body);
+                    } else {
+                        let body = self.r.render_expr(&arm.body);
+                        let pat = norm(self.r.text(arm.pat.span()));
+                        self.replace(arm.body.span(), format!("{{ /*@M:arm {}@*/ {} }}", pat, body));
+                    }
+                }
+            }
             Expr::Call(c) => {
                 // R18: call of a closure stored in an opaque field
                 if let Expr::Field(f) = strip_paren(&c.func) {
@@ -1475,7 +1491,7 @@ fn renumber(text: &str, sigs: &HashMap<usize, String>, baseline: &[String]) -> (
     // two passes through a placeholder so that renamed ordinals cannot collide with not-yet-renamed ids
     for (idx, id) in loops.iter().enumerate() {
         let k = ordinals[idx];
-        for pre in ["__it", "__e", "__s", "__out", "__r", "__n", "__p", "__c"] {
+        for pre in ["__it", "__e", "__s", "__out", "__r", "__n", "__p", "__c", "__ci", "__nx"] {
             out = replace_word(&out, &format!("{}{}", pre, id), &format!("{}_~{}", pre, k));
         }
         // map temporaries: __m<id>x<i>
